@@ -193,4 +193,19 @@ TEXTS.update({
         "technique": "Lean 4 proof (termination variant + terminal-state completeness from every state) + shutdown-point enumeration on the real code under testing/synctest",
     },
 })
+TEXTS["_engines"].append({"name": "join", "path": "harness/conc/join_test.go", "serves_properties": ["C09"],
+    "kind_free_text": "all generated joins and IngressPods over fake servers under testing/synctest; join cache vs the reference selection, close scope, goroutine residue (kdriver join)"})
+TEXTS.update({
+    "C09": {
+        "text": "Lean theorems: once the source monitor has handled every source change, the filter last handed to Refilter was computed from the final source cache (for every "
+                "timing of changes, handler calls and their cache reads); then, the clone having drained, the join's cache is exactly the destination objects the selection rule selects "
+                "(C06 convergence), the rule being Kubernetes ownership (C19); the join is ready only after destination readiness and a supplied filter, filters being supplied only after "
+                "the source is ready (C08, C16); its events are a well-formed delta; closing the result ends everything the join created and leaves source, destination and unrelated "
+                "subscribers running (C11). Tie: all nine joins over fake servers, join cache vs reference selection at every quiescent point, close scope and goroutine residue.",
+        "design_ref": "DESIGN.md §7 C09",
+        "note": "Trusted as for C06/C11/C16/C19. Goroutine exit after closing the result is exhibited by the engine (stack inspection + synctest), not proved. The double join IngressPods is "
+                "covered by composing the single-join theorems (services selected by ingresses, pods selected by those services) and by the engine.",
+        "technique": "Lean 4 proof (composition of the FSub convergence, monitor and cascade theorems + a 'last refilter is current' invariant) + behavioural conformance of all joins under testing/synctest",
+    },
+})
 NOT_BUILT = {}
